@@ -121,6 +121,60 @@ def loop_calls_all(rep, rule, func, site, source_patterns, call_pattern, what):
               construct=what, node=lp)
 
 
+def delegation_spec(rep, mod, rule):
+    """_createLookup, over its path summaries: a NEW lookup object is created
+    from LookupClass and stored as self._v_lookup, and afterwards every
+    delegated entry point is (re)bound - stored unconditionally in the instance
+    dict - to the method of THAT object.  (rebuild() re-runs this: an entry
+    point left bound to the previous lookup object answers from caches that
+    changed() no longer reaches.)"""
+    from ..sympath import summaries as _S, normal as _N
+    from .sem import nt as _nt
+    cl = find_def(mod, 'BaseAdapterRegistry._createLookup')
+    p_new, p_del = [], []
+    n_loop = 0
+    E = 'EACH(self._delegated)'
+    for ps in _N(_S(cl)):
+        st = [(k, e) for k, e in enumerate(ps.events) if e.kind == 'store'
+              and _nt(e.r) == 'self._v_lookup']
+        if len(st) != 1 or _nt(st[0][1].val) != 'self.LookupClass(self)':
+            p_new.append('self._v_lookup = %s' % [_nt(e.val)[:40] for k, e in st])
+            continue
+        k0 = st[0][0]
+        if not ps.facts.get('ITER(self._delegated)'):
+            continue
+        n_loop += 1
+        conds = [c for c, t, p in ps.order if not c.startswith('ITER(') and p > k0]
+        if conds:
+            p_del.append('the binding of an entry point depends on `%s`' % conds[0][:50])
+        bind = [(k, e) for k, e in enumerate(ps.events) if e.kind == 'store' and
+                _nt(e.r) in ('self.__dict__[%s]' % E, 'vars(self)[%s]' % E)]
+        viaset = [k for k, e in enumerate(ps.events) if e.kind == 'call' and
+                  _nt(e.r) == 'setattr(self, %s, getattr(self._v_lookup, %s))' % (E, E)]
+        if not bind and len(viaset) == 1 and viaset[0] > k0:
+            continue          # setattr on the instance is the same dict store
+        if len(bind) != 1 or bind[0][0] < k0 or \
+                _nt(bind[0][1].val) != 'getattr(self._v_lookup, %s)' % E:
+            other = [_nt(e.r)[:70] for e in ps.events if e.kind == 'call'
+                     and isinstance(e.r, ast.Call) and E in _nt(e.r)
+                     and not _nt(e.r).startswith('getattr(')]
+            p_del.append('each delegated name is not stored as '
+                         'self.__dict__[name] = getattr(self._v_lookup, name) after the '
+                         'new lookup object exists (stores %s, calls %s)'
+                         % ([_nt(e.val)[:40] for k, e in bind], other[:2]))
+    if not n_loop:
+        p_del.append('no path walks self._delegated')
+    rep.check(rule, 'BaseAdapterRegistry._createLookup', not p_new,
+              'the lookup object notified by changed() is the one created from '
+              'LookupClass and the one whose methods are delegated'
+              if not p_new else {'problems': sorted(set(p_new))[:2]},
+              construct='create', node=cl)
+    rep.check(rule, 'BaseAdapterRegistry._createLookup', not p_del,
+              'delegated entry points are (re)bound to the methods of the new '
+              'self._v_lookup' if not p_del else {'problems': sorted(set(p_del))[:2]},
+              construct='delegate', node=cl)
+
+
 def inv2(rep, mod, table):
     # BaseAdapterRegistry.changed
     f = find_def(mod, 'BaseAdapterRegistry.changed')
@@ -164,19 +218,7 @@ def inv2(rep, mod, table):
         rep.check('INV-2', reg, v is not None and dotted(v) == lk,
                   'LookupClass = %s (required %s)' % (norm_src(v), lk),
                   construct='LookupClass', node=cls)
-    cl = find_def(mod, 'BaseAdapterRegistry._createLookup')
-    rep.check('INV-2', 'BaseAdapterRegistry._createLookup',
-              bool(find_all(cl, 'self._v_lookup = self.LookupClass(self)', 'exec')),
-              'the lookup object notified by changed() is the one created from '
-              'LookupClass and the one whose methods are delegated',
-              construct='create', node=cl)
-    dl = [lp for lp, d, e in loops_over(cl, 'self._delegated')]
-    okd = False
-    if dl:
-        okd = bool(find_all(dl[0], 'self.__dict__[$n] = getattr(self._v_lookup, $n)', 'exec'))
-    rep.check('INV-2', 'BaseAdapterRegistry._createLookup', okd,
-              'delegated entry points are bound methods of self._v_lookup',
-              construct='delegate', node=cl)
+    delegation_spec(rep, mod, 'INV-2')
     # terminal: LookupBase.changed clears every cache field
     init = find_def(mod, 'LookupBase.__init__')
     fields = set()
